@@ -324,13 +324,16 @@ def _cond_case(draw, tier):
     n = draw(st.sampled_from([1, 2, 3, 4]))
     elems = []
     for _ in range(n):
-        kind = draw(st.sampled_from(["plain", "cond", "cond", "is", "cond3"]))
+        kind = draw(st.sampled_from(["plain", "cond", "cond", "is", "cond3", "fstr"]))
         if kind == "plain":
             elems.append(["plain", draw(leaf)])
         elif kind == "cond":
             elems.append(["cond", draw(leaf), draw(leaf)])
         elif kind == "cond3":
             elems.append(["cond3", draw(leaf), draw(leaf), draw(leaf)])
+        elif kind == "fstr":
+            # an f-string (documented to work like Is(f"...")) whose value changes per evaluation
+            elems.append(["fstr"] + [["str", "p" + draw(st.sampled_from(["a", "b", "c"]))] for _ in range(3)])
         else:
             elems.append(["is", draw(leaf), draw(leaf), draw(leaf)])
     shape = draw(st.sampled_from(["list", "tuple", "dict", "nested", "call", "bare"]))
@@ -365,6 +368,8 @@ def _cond_text(e, i):
     if e[0] == "cond3":
         return (f"(snapshot({gv.natural(e[1])}) if c == 0 else snapshot({gv.natural(e[2])}) if c == 1 "
                 f"else snapshot({gv.natural(e[3])}))")
+    if e[0] == "fstr":
+        return f'f"p{{ALT{i}[c]}}"'
     return f"Is(ALT{i}[c])"
 
 
@@ -394,6 +399,8 @@ def build_cond_module(case):
     for i, e in enumerate(elems):
         if e[0] == "is":
             lines.append(f"ALT{i} = [{', '.join(gv.render(x) for x in e[1:4])}]")
+        if e[0] == "fstr":
+            lines.append(f"ALT{i} = [{', '.join(repr(x[1][1:]) for x in e[1:4])}]")
     star = case.get("star", False)
     if star:
         lines += ["BASE = [1, 2]", "DBASE = {'a': 1, 'b': 2}"]
@@ -416,6 +423,15 @@ def build_cond_module(case):
         lines += ["def test_a():", "    for c, x in CASES:",
                   f"        LOG.append(outcome(lambda: x == snapshot({text})))"]
     return "\n".join(lines) + "\n"
+
+
+def cond_signature(case):
+    """known finding F64: an f-string whose value differs between two evaluations raises the usage error"""
+    cs = [c for c, _w in case["iters"]]
+    for e in case["elems"]:
+        if e[0] == "fstr" and len({repr(e[1 + c]) for c in cs}) > 1:
+            return {"fstring-reevaluated-with-other-value"}
+    return set()
 
 
 def check_cond(case):
@@ -449,7 +465,7 @@ def check_cond(case):
 ARMS = [
     HypArm("differential", lambda tier: _case(tier), check_diff,
            budget={"quick": 3000, "thorough": 200000}, shards={"quick": 8, "thorough": 64}),
-    HypArm("conditional", lambda tier: _cond_case(tier), check_cond,
+    HypArm("conditional", lambda tier: _cond_case(tier), check_cond, signature=cond_signature,
            budget={"quick": 800, "thorough": 40000}, shards={"quick": 8, "thorough": 64}),
     HypArm("sessions", lambda tier: _sess_case(tier), check_sessions,
            budget={"quick": 48, "thorough": 1500}, shrink=False),
